@@ -7,7 +7,7 @@ SPEC = {
         'C32_acked_contiguous_increasing', 'C32_refuted_gap',
         'C32_recorded_le_acked', 'C32_recorded_le_acked_refuted',
         'C32_block_kinds_consecutive', 'C32_getPushData_exact', 'C32_getPushData_no_panic',
-        'C32_oversize_block_stalls',
+        'C32_oversize_block_stalls', 'C32_recorded_monotone', 'C32_fix_no_skip', 'C32_fix_progress',
     ],
     'allowed_axioms': [],
     'shard': 70,
@@ -18,7 +18,7 @@ SPEC = {
             'or a payload shorter than the count. CHist: one history of the real Push task over in-memory stores and a scripted '
             'PostService: registration (with/without LastSequence, wrong hash, sequence beyond the log), chain growth incl. DelBlock '
             'entries, scripted post results (fail probability 0-90%, at most 7 failures per history), re-registrations (same / '
-            'changed URL), probes, Close + new Push over the same stores; push types block, header, tx receipt, tx result; '
+            'changed URL), probes, Close + new Push over the same stores; push types block, header, tx receipt, tx result, EVM event (blocks also carry an evm transaction of another contract and a failed one of the subscribed contract); '
             'sizes around the real 1 MiB limit (block sizes are mock numbers, header / receipt sizes are real proto sizes tuned by '
             'payload length); batches of 10 / 100; postFail2Sleep 1 (2-3 in the sleepN stream with waits for the counter). The task '
             'goroutine is held at LoadBlockLastSequence / PostData while the script acts, so the trace is the real event order. '
@@ -34,9 +34,10 @@ SPEC = {
         'a process crash between PostData returning nil and setLastPushSeq (redelivery after restart) is not modelled; '
         'ERestart is an orderly restart after Close',
         'per-entry sizes and "has matching transaction" flags are inputs of the model: for header and receipt pushes the harness '
-        'recomputes them (header.Size(), types.Size of the per-block message built as push.go builds it); a wrong recomputation '
+        'recomputes them (header.Size(), types.Size of the per-block receipt / EVM-log message built as push.go builds it); a wrong recomputation '
         'shows up as a model disagreement',
-        'PushEVMEvent shares the loop of PushTxReceipt (model kind KRecv) but is not run by the harness',
+        'PushClient.PostData (HTTP/gzip transport, "ok" body test) is replaced by the scripted PostService; BlockChain.ProcGetLastPushSeq '
+        'is observed as the stored key it reads',
         'harness scheduling: a notification is queued before a round is released so that the end of a round is observable; '
         'for postFail2Sleep >= 2 a failing post is only scripted when the queue is empty (otherwise the sleep ticks race)',
     ],
@@ -44,7 +45,8 @@ SPEC = {
         'acknowledged = PostService.PostData returned nil; payload sequence numbers are read from the decoded payload '
         '(proto or JSON) and each item must carry the hash/type stored for its number',
         'resume point = LastSequence of the registration when its hash matched, otherwise the position the task jumped to '
-        '("start from newest" when lastProcessed <= 0); the spec oracle uses the first acknowledged number in the second case',
+        '("start from newest" when lastProcessed <= 0): the spec oracle takes the newest sequence answered to the first round of a '
+        'task that starts with nothing stored (re-taken when such a task is restarted before anything was acknowledged)',
     ],
     'manifest': {
         'level_text': 'full for block, header and tx-result pushes (consecutive integers from the resume point, stored sequence '
